@@ -123,7 +123,8 @@ def ActFrom (cfg : Cfg) (s : Sys) (t : Thread) (pc' : Pc) : Act → Prop
   | .getInformer g _ =>
       (∃ n cid wid reg, t.pc = .spGI n cid wid reg ∧ g = wid.gvk) ∨
       (∃ cid a st wid rest, t.pc = .swGI cid a st wid rest ∧ g = wid.gvk) ∨
-      (∃ cid wid reg rest k, t.pc = .xwGI cid wid reg rest k ∧ g = wid.gvk)
+      (∃ cid wid reg rest k, t.pc = .xwGI cid wid reg rest k ∧ g = wid.gvk) ∨
+      (t.op = .cacheRead g ∧ t.pc = .idle)
   | .addReg cid wid h' => ∃ a st rest, t.pc = .swAH cid a st wid rest h' ∧ aget wid.gvk s.live = some h' ∧
       pc' = swPc cid a (if cfg.fixD2 then wid :: st else st)
         (swNext (aset wid s.nextReg (srcsOf s cid)) a (if cfg.fixD2 then wid :: st else st) rest)
@@ -148,7 +149,8 @@ theorem next_act_cases {cfg : Cfg} {s : Sys} {i : Nat} {t : Thread} {ch : Choice
        | exact ⟨rfl, by assumption⟩
        | exact Or.inl ⟨_, _, _, _, rfl, rfl⟩
        | exact Or.inr (Or.inl ⟨_, _, _, _, _, rfl, rfl⟩)
-       | exact Or.inr (Or.inr ⟨_, _, _, _, _, rfl, rfl⟩)
+       | exact Or.inr (Or.inr (Or.inl ⟨_, _, _, _, _, rfl, rfl⟩))
+       | exact Or.inr (Or.inr (Or.inr ⟨rfl, rfl⟩))
        | exact Or.inl ⟨_, _, rfl, rfl⟩
        | exact Or.inr ⟨_, _, _, rfl, rfl⟩
        | exact rfl
